@@ -141,8 +141,11 @@ def apply_edits(o, ops: list, newobj: dict):
     from molli.chem.atom import Element, AtomType, AtomGeom
     from molli.chem.bond import BondType
     E = {e.symbol: e for e in Element}
-    moved = False
+    moved, keep = False, []
     for op in ops:
+        if op["op"] == "alias":
+            keep.append(alias(o, op["mode"], op["atoms"]))
+            continue
         if op["op"] == "bond":
             o.bonds[op["i"] - 1].btype = BondType[op["bt"]]
         elif op["op"] == "atom":
@@ -163,6 +166,31 @@ def apply_edits(o, ops: list, newobj: dict):
         if newobj["kind"] != "Struct":
             chg = np.array([[q / 1e5 for q in b["q"]] for b in blocks], dtype=float).reshape(k, n)
             o.atomic_charges = chg if ens else chg[0]
+    return keep                                  # containers / views that must stay alive while the object is written
+
+
+def alias(o, mode: str, idx: list):
+    """Put some of the object's Atom objects (in the given order) into another container WITHOUT copying, or look at
+    them through a view.  Nothing of the object itself is changed; only the atoms' parent bookkeeping may be."""
+    import gc, weakref
+    import molli as ml
+    atoms = [o.atoms[i - 1] for i in idx]
+    if mode == "promol":
+        return ml.Promolecule(atoms)             # copy_atoms=False: the atoms now point to this container
+    if mode == "struct":
+        return ml.Structure(atoms)
+    if mode == "dropped":
+        p = ml.Promolecule(atoms)
+        r = weakref.ref(p)
+        del p
+        if r() is not None:
+            gc.collect()
+        return None                              # the atoms' parent is gone
+    if mode == "view":
+        if isinstance(o, ml.ConformerEnsemble):
+            return [o[k] for k in range(o.n_conformers)]
+        return ml.Substructure(o, atoms)
+    raise AssertionError(f"unknown alias mode {mode}")
 
 
 # ----------------------------------------------------------------------------- abstraction of objects
@@ -290,7 +318,7 @@ def run_case(o, route: str, edit=None):
                 break
         if edit is not None and len(ev) == 5:
             ops, newobj = edit
-            apply_edits(o, ops, newobj)
+            keep = apply_edits(o, ops, newobj)    # noqa: F841  (kept alive until the function returns)
             ev.append({"ev": "edit", "ops": ops, "obj": {"kind": kind, "blocks": abstract(o)}})
             calls += 1
             try:
